@@ -44,6 +44,65 @@ def _stores_through(b, call_site):
     return out
 
 
+class IStore:
+    """one store `recv[idx] = value`: through the reference IndexMut::index_mut returned (Vec) or through an index projection
+    (slice / array)"""
+
+    __slots__ = ("body", "site", "recv", "idx", "vals", "is_bool")
+
+    def __init__(self, body, site, recv, idx, vals, is_bool):
+        self.body, self.site, self.recv, self.idx, self.vals, self.is_bool = body, site, recv, idx, vals, is_bool
+
+    def loc(self):
+        return self.site.loc()
+
+    def stores_const(self, v):
+        return ("const", v) in self.vals
+
+
+def _rv_trees(prog, y, rv):
+    if rv["k"] in ("use", "cast"):
+        return set(prov(prog, y, rv["ops"][0]))
+    if rv["k"] == "binop":
+        a = sorted(prov(prog, y, rv["ops"][0]), key=repr)
+        b = sorted(prov(prog, y, rv["ops"][1]), key=repr)
+        if len(a) == 1 and len(b) == 1:
+            return {("op", rv["op"], (a[0], b[0]))}
+    return {("?", rv["k"])}
+
+
+def indexed_stores(prog, y):
+    out = []
+    for s in y.calls():
+        if callee_decl(callee_of(s)) == "core::ops::index::IndexMut::index_mut":
+            vals = set()
+            for op in _stores_through(y, s):
+                vals |= set(prov(prog, y, op))
+            if vals:
+                out.append(IStore(y, s, s.node["args"][0], s.node["args"][1], vals, "bool" in str(callee_of(s).get("substs"))))
+    for s in y.sites():
+        nd = s.node
+        if s.si is None or nd["k"] != "assign":
+            continue
+        pp = nd["dst"]["p"]
+        for k, e in enumerate(pp):
+            if isinstance(e, dict) and "idx" in e and k == len(pp) - 1:
+                base = {"l": nd["dst"]["l"], "p": pp[:k]}
+                ty = y.local_ty(nd["dst"]["l"])
+                out.append(IStore(y, s, base, {"c": {"l": e["idx"], "p": []}}, _rv_trees(prog, y, nd["rv"]), "bool" in ty))
+    return out
+
+
+def module_bodies(prog, F, mod):
+    """F, the functions of the module it reaches through resolved calls, and their closures"""
+    bodies = []
+    for x in [F] + [x for x in prog.reachable_from([F], virtual_dispatch=False).values() if x.kind != "closure" and (x.path.startswith(mod + "::") or ("<" + mod + "::") in x.path) and x is not F]:
+        for y in prog.with_closures(x):
+            if y not in bodies:
+                bodies.append(y)
+    return bodies
+
+
 def rule_class_tables_agree(ctx):
     prog = ctx.prog
     r = ctx.rule(
@@ -219,6 +278,30 @@ def _field_ty(adt, name):
     return ""
 
 
+def _flagless_region(prog, y, site):
+    """the closure body / innermost loop around `site` reads and writes no bool vector: it classifies by construction, not by flags"""
+    if y.kind == "closure":
+        blocks = set(y.reachable)
+    else:
+        ls = [bl for h, bl in y.loops() if site.bb in bl]
+        if not ls:
+            return False
+        blocks = min(ls, key=len)
+    for s in y.calls():
+        if s.bb in blocks and callee_decl(callee_of(s)) in ("core::ops::index::Index::index", "core::ops::index::IndexMut::index_mut") and "bool" in str(callee_of(s).get("substs")):
+            return False
+    for st in indexed_stores(prog, y):
+        if st.site.bb in blocks and st.is_bool:
+            return False
+    for s in y.sites():
+        nd = s.node
+        if s.bb in blocks and s.si is not None and nd["k"] == "assign":
+            for pl in [op_place(o) for o in nd["rv"].get("ops", [])] + [nd["rv"].get("place")]:
+                if pl and any(isinstance(e, dict) and "idx" in e for e in pl["p"]) and "bool" in y.local_ty(pl["l"]):
+                    return False
+    return True
+
+
 def rule_classes_partition(ctx):
     prog = ctx.prog
     r = ctx.rule(
@@ -261,7 +344,7 @@ def rule_classes_partition(ctx):
                 es = prov(prog, y, nd["rv"]["ops"][0])
                 if not es or any(e[0] == "const" for e in es):
                     continue
-                if y.kind == "closure" and all(e[0] == "elem" and isinstance(e[1], tuple) and e[1][0] == "agg" and str(e[1][1]).startswith("Range") for e in es):
+                if all(e[0] == "elem" and isinstance(e[1], tuple) and e[1][0] == "agg" and str(e[1][1]).startswith("Range") for e in es) and _flagless_region(prog, y, s):
                     # `(0..n).map(|i| Class(vec![i]))`: one singleton class per id of a plain range - a partition by construction
                     r.ok("%s|seed#range" % y.id, "one singleton class per id of a range", s.loc())
                     continue
@@ -359,26 +442,26 @@ def rule_merge_test(ctx):
     r.floor(n, 1, "members pushed into classes")
     # the in-degree counters
     n2 = 0
-    for y in bodies:
-        for s in y.calls():
-            if callee_decl(callee_of(s)) != "core::ops::index::IndexMut::index_mut":
+    for y in module_bodies(prog, F, mod):
+        for st in indexed_stores(prog, y):
+            if st.is_bool:
                 continue
-            recv = prov(prog, y, s.node["args"][0])
+            recv = prov(prog, y, st.recv)
             if not any(e[0] == "call" and e[1].endswith("from_elem") and e[2] and e[2][0] == ("const", 0) for e in recv):
                 continue
-            for op in _stores_through(y, s):
-                for e in prov(prog, y, op):
-                    core_ = e[1] if e[0] == "field" and e[2] == "0" and e[1][0] == "op" else e
-                    if core_[0] != "op":
-                        continue
-                    n2 += 1
-                    anchor = "%s|counter-store#%d" % (F.id, n2)
-                    idx = _one(prov(prog, y, s.node["args"][1]))
-                    good = core_[1] in ("Add", "AddWithOverflow") and core_[2][1] == ("const", 1) and idx is not None and idx[0] == "call" and idx[1].endswith("Label::id") and _calls_in(idx, r"::attacked$") and _calls_in(idx, r"AAFramework::iter_attacks$")
-                    if good and _calls_in(idx, r"Iterator::(filter|filter_map|skip|skip_while|take|take_while|step_by)$"):
-                        r.violation(anchor, "counter-filtered", "the in-degree counters count a filtered list of attacks (%s): the propagations do not start from the in-degrees" % _calls_in(idx, r"Iterator::(filter|filter_map|skip|skip_while|take|take_while|step_by)$")[0][1].rsplit("::", 1)[-1], s.loc())
-                        continue
-                    r.check(good, anchor, "counter-rewritten:%s" % core_[1], "counters are incremented once per stored attack, at the attacked argument", "the attacker counters are rewritten (%s at %s): the propagations no longer start from the in-degrees" % (core_[1], show(idx)[:80] if idx else "?"), s.loc())
+            s = st.site
+            for e in st.vals:
+                core_ = e[1] if e[0] == "field" and e[2] == "0" and e[1][0] == "op" else e
+                if core_[0] != "op":
+                    continue
+                n2 += 1
+                anchor = "%s|counter-store#%d" % (F.id, n2)
+                idx = _one(prov(prog, y, st.idx))
+                good = core_[1] in ("Add", "AddWithOverflow") and core_[2][1] == ("const", 1) and idx is not None and idx[0] == "call" and idx[1].endswith("Label::id") and _calls_in(idx, r"::attacked$") and _calls_in(idx, r"AAFramework::iter_attacks$")
+                if good and _calls_in(idx, r"Iterator::(filter|filter_map|skip|skip_while|take|take_while|step_by)$"):
+                    r.violation(anchor, "counter-filtered", "the in-degree counters count a filtered list of attacks (%s): the propagations do not start from the in-degrees" % _calls_in(idx, r"Iterator::(filter|filter_map|skip|skip_while|take|take_while|step_by)$")[0][1].rsplit("::", 1)[-1], s.loc())
+                    continue
+                r.check(good, anchor, "counter-rewritten:%s" % core_[1], "counters are incremented once per stored attack, at the attacked argument", "the attacker counters are rewritten (%s at %s): the propagations no longer start from the in-degrees" % (core_[1], show(idx)[:80] if idx else "?"), s.loc())
     r.floor(n2, 1, "stores into the in-degree counters")
 
 
@@ -463,27 +546,27 @@ def rule_propagation_discipline(ctx):
     # marking stores: V[I] = true
     marks = []
     for y in bodies:
-        for s in y.calls():
-            if callee_decl(callee_of(s)) == "core::ops::index::IndexMut::index_mut" and "bool" in str(callee_of(s).get("substs")):
-                if any((op_const(o) or {}).get("bool") is True for o in _stores_through(y, s)):
-                    conds = _cond_trees(prog, inherited_conditions(prog, y, s.bb))
-                    for v in roots(prog, y, s.node["args"][0]):
-                        for i in prov(prog, y, s.node["args"][1]):
-                            marks.append((v, i, conds))
+        for st in indexed_stores(prog, y):
+            if st.is_bool and st.stores_const(True):
+                conds = _cond_trees(prog, inherited_conditions(prog, y, st.site.bb))
+                for v in roots(prog, y, st.recv):
+                    for i in prov(prog, y, st.idx):
+                        marks.append((v, i, conds))
     n = 0
     for y in bodies:
-        for s in y.calls():
-            if callee_decl(callee_of(s)) != "core::ops::index::IndexMut::index_mut" or "bool" in str(callee_of(s).get("substs")):
+        for st in indexed_stores(prog, y):
+            if st.is_bool:
                 continue
-            for op in _stores_through(y, s):
-                for e in prov(prog, y, op):
+            s = st.site
+            if True:
+                for e in st.vals:
                     core_ = e[1] if e[0] == "field" and e[2] == "0" and e[1][0] == "op" else e
                     if not (core_[0] == "op" and core_[1] in ("Sub", "SubWithOverflow") and len(core_[2]) == 2):
                         continue
                     n += 1
                     anchor = "%s|decrement#%d" % (F.id, n)
                     r.check(core_[2][1] == ("const", 1), anchor, "step:%s" % show(core_[2][1]), "a defeated attacker lowers the counter by 1", "the counter is lowered by %s per defeated attacker" % show(core_[2][1]), s.loc())
-                    X = _one(prov(prog, y, s.node["args"][1]))
+                    X = _one(prov(prog, y, st.idx))
                     froms = [t for t in subterms(X) if _is_call(t, r"iter_attacks_from(_id)?$")] if X is not None else []
                     if X is None or not _is_call(X, r"Label::id$", 1) or not _is_call(X[2][0], r"::attacked$", 1) or X[2][0][2][0][0] != "elem" or not froms:
                         wrong = X is not None and (_calls_in(X, r"::attacker$") or _calls_in(X, r"iter_attacks_to(_id)?$"))
@@ -556,13 +639,12 @@ def rule_grounded_seeds(ctx):
         if b.kind == "closure" or not b.path.startswith(mod + "::"):
             continue
         for y in prog.with_closures(b):
-            for s in y.calls():
-                if callee_decl(callee_of(s)) == "core::ops::index::IndexMut::index_mut" and "bool" not in str(callee_of(s).get("substs")):
-                    for op in _stores_through(y, s):
-                        for e in prov(prog, y, op):
-                            core_ = e[1] if e[0] == "field" and e[2] == "0" and e[1][0] == "op" else e
-                            if core_[0] == "op" and core_[1] in ("Sub", "SubWithOverflow") and b not in props:
-                                props.append(b)
+            for st in indexed_stores(prog, y):
+                if not st.is_bool:
+                    for e in st.vals:
+                        core_ = e[1] if e[0] == "field" and e[2] == "0" and e[1][0] == "op" else e
+                        if core_[0] == "op" and core_[1] in ("Sub", "SubWithOverflow") and b not in props:
+                            props.append(b)
     if not r.require_anchor(len(props) >= 1, "the function lowering the attacker counters in " + mod):
         return
     n = 0
